@@ -186,7 +186,7 @@ def stream_sver(ctx: Ctx, n: int):
 
 
 # ------------------------------------------------------------------------ S-gen
-def stream_sgen(ctx: Ctx, pairs, with_predicates=True):
+def stream_sgen(ctx: Ctx, pairs, with_predicates=True, with_hash=False):
     """the extracted... rather: the regenerated model evaluated inside Coq against the
     Python methods on the same operands, compared field by field"""
     terms, meta = [], []
@@ -198,6 +198,11 @@ def stream_sgen(ctx: Ctx, pairs, with_predicates=True):
         terms.append(f"CEq {ca} {cb} {sg.cres(lambda: a == b, coqrun.cbool)}"); meta.append(("eq", a, b))
         terms.append(f"CIsEmpty {ca} {sg.cres(lambda: a.is_empty(), coqrun.cbool)}"); meta.append(("is_empty", a, None))
         terms.append(f"CIsAny {ca} {sg.cres(lambda: a.is_any(), coqrun.cbool)}"); meta.append(("is_any", a, None))
+        if with_hash:
+            try:
+                terms.append(f"CHashEq {ca} {cb} {coqrun.cbool(hash(a) == hash(b))}"); meta.append(("hash-eq", a, b))
+            except Exception:  # noqa: BLE001
+                pass
         if with_predicates and type(a).__name__ == "RangeSpecifier" and type(b).__name__ == "RangeSpecifier":
             ra, rb = sg.crange(a), sg.crange(b)
             for cname, meth in (("CRangeAllowsLower", "allows_lower"), ("CRangeAllowsHigher", "allows_higher"),
